@@ -20,6 +20,10 @@ class Engine(StmtMixin, CallMixin, ExprMixin, EngineBase):
             c.fun(name, asorts, ret)
         for sort in self.m.fields.values():
             c.need(sort)
+        for name, (asorts, ret) in self.m.defs.items():
+            c.fun(name, asorts, ret)
+            c.predefined.add(name)
+        c.user_defs = self.m.defs_text
         return c
 
     def entry_state(self, k):
